@@ -38,4 +38,19 @@ CHECKS = {
         note="As C01; 'canonical stable form' = gaftools' own output for a canonical unstable record; optional fields from the parser-safe alphabet (C16 covers the rest).",
         technique="TLC bounded enumeration + TLC validation of exact round trips through gaftools view",
     ),
+    "C03": dict(
+        text="ViewIndex.tla defines which nodes a record traverses (unstable path nodes; stable intervals / contig span overlap) and generates every session within the bound; gaftools index runs on each file in both formats and storages (plain, multi-block BGZF); the harness unpickles the .gvi, seeks the real file to every listed offset with its own reader and with GAF.read_line, and TLC (Check_View.V03) decides keys, exact record sets and resolution.",
+        ref="5 C03", note="Trusted: TLC, the BGZF block walker / line splitters in harness/readers.py, pickle. Bounds: reference chain <=3 (quick) / <=4 (thorough) segments of length 1-2, <=2 haplotype segments, walks <=2-3 steps, <=1-2 unaligned nodes; stable files are gaftools' own conversions of the unstable ones.",
+        technique="TLC bounded enumeration of ViewIndex sessions replayed through gaftools index; TLC validation of the unpickled index against IndexOf",
+    ),
+    "C04": dict(
+        text="Same sessions; ALL node lists of length <=2 (repeats, any order, aligned or not) are run through gaftools view --node, plus --format variants compared with selecting from the whole-file conversion, plus the plain reproduction of the file; TLC (Check_View.V04) decides selection, order, exactly-once, nothing-found reporting.",
+        ref="5 C04", note="Trusted: TLC, the BGZF block walker / line splitters in harness/readers.py, pickle. Bounds: reference chain <=3 (quick) / <=4 (thorough) segments of length 1-2, <=2 haplotype segments, walks <=2-3 steps, <=1-2 unaligned nodes; stable files are gaftools' own conversions of the unstable ones.",
+        technique="TLC bounded enumeration + exhaustive node-list queries through gaftools view; TLC validation against Select",
+    ),
+    "C05": dict(
+        text="Same sessions; ALL regions (every contig, every 0<=a<=b<contig length) and seeded region pairs are run through gaftools view --region under a per-query alarm; TLC (Check_View.V05) accepts any node set between half-open and closed end semantics and decides selection, order, termination and absence of internal errors.",
+        ref="5 C05", note="Trusted: TLC, the BGZF block walker / line splitters in harness/readers.py, pickle. Bounds: reference chain <=3 (quick) / <=4 (thorough) segments of length 1-2, <=2 haplotype segments, walks <=2-3 steps, <=1-2 unaligned nodes; stable files are gaftools' own conversions of the unstable ones. Region end inclusive/exclusive both accepted (DESIGN 7.3).",
+        technique="TLC bounded enumeration + exhaustive region queries through gaftools view; TLC validation against Must/May node sets",
+    ),
 }
